@@ -84,6 +84,11 @@ func genScan(profile string, ending bool) func(seed uint64, r *rng.Rand) *Plan {
 						o.PauseMS = g.R.Range(0, 120)
 					case 2:
 						o.ScanClose = g.R.Chance(0.3)
+					case 3:
+						// the scan's context has a deadline that passes between two
+						// Next calls (the caller is slow) or while a request is outstanding
+						o.Ctx = CtxSpec{Kind: "timeout", MS: g.R.Range(1, 200)}
+						o.PauseMS = g.R.Range(1, 80)
 					}
 				}
 				ops = append(ops, o)
